@@ -157,6 +157,10 @@ theorem deltaBinaryUnpack_refines (pre post : List Nat) (longval : Bool) (blockS
       slots.toList = vals.map (ofSigned (if longval then 64 else 32)) :=
   deltaKernel_eq_spec pre post longval blockSize mpb cnt first blocks hbs hmpb64 hfirst hmpb hvpm h8 hcnt1 hcnt hblocks hroom hbytes
 
+/-- **`width_from_max_int` (55-61)** = the specification's level / index width for every maximum below 2^63 -/
+theorem widthFromMaxInt_refines (n : Nat) (h : n < 2 ^ 63) : widthFromMaxInt (n : Int) = widthFor n :=
+  widthFromMaxInt_eq n h
+
 -- a stream meeting the hypotheses: block size 8, one miniblock per block, widths 3 and 0, five values
 example : BlockOk 8 1 ((-1 : Int), [((3 : Nat), [5, 0, 7, 1, 0, 0, 0, 0])]) :=
   ⟨by unfold okI64; constructor <;> norm_num, rfl, by
